@@ -160,6 +160,7 @@ class _History:
         self.used = []  # (method, degree), first-use order
         self.edited = set()  # angular keys with an in-place edited earlier object
         self.holders = []  # dict(kind, key, arrays=[...], atom=idx|None, el=...)
+        self.presets_built = set()
         self.atoms = []  # dict(spec, grid, first=(bytes, bytes), dirty, basis_built)
         self.mols = []  # dict(spec, first)
         self.tfs = []  # dict(kind, prm, b, obj, ncalls, first)
@@ -344,6 +345,31 @@ class _History:
         self.ctx.cls(f"method:{spec['method']}", "atom:rotated" if spec["rot"] else "atom:unrotated")
         if spec["r"][0] == 0.0:
             self.ctx.cls("atom:r0-shell")
+
+    def step_preset(self, st_):
+        """AtomGrid.from_preset with the DEFAULT radial grid (rgrid=None): everything the library derives from its
+        tables - the radial grid too - is handed to the caller, who may edit it in place; a later build of the same
+        (element, preset) must still be the grid of the first build in this process."""
+        from grid.atomgrid import AtomGrid
+
+        atnum, preset = st_["z"], st_["preset"]
+        ag = AtomGrid.from_preset(atnum=atnum, preset=preset, rgrid=None)
+        sig = (ag.rgrid.points.tobytes(), ag.rgrid.weights.tobytes(), ag.points.tobytes(), ag.weights.tobytes(), tuple(int(d) for d in ag.degrees))
+        key = (atnum, preset)
+        if key not in _PRESET_ANCHOR:
+            _PRESET_ANCHOR[key] = sig
+        elif sig != _PRESET_ANCHOR[key]:
+            which = [n for n, a, b in zip(("rgrid.points", "rgrid.weights", "points", "weights", "degrees"), sig, _PRESET_ANCHOR[key]) if a != b]
+            self.ctx.fail("preset-grid-with-default-rgrid-depends-on-history", f"AtomGrid.from_preset(atnum={atnum}, preset={preset!r}, rgrid=None): {', '.join(which)} differ from the first build in this process")
+        for d in set(int(d) for d in ag.degrees):
+            self.use(("lebedev", d))
+        self.hold("preset-rgrid", None, [ag.rgrid.points, ag.rgrid.weights])
+        self.hold("preset-atom", None, [ag.points, ag.weights])
+        if key in self.presets_built:
+            self.ctx.nt()
+            self.ctx.cls("nt:preset-rebuilt-after-earlier-build")
+        self.presets_built.add(key)
+        self.ctx.cls(f"preset:{preset}")
 
     def rebuild_atom(self, ent, when):
         spec = ent["spec"]
@@ -649,6 +675,7 @@ class _History:
             "tf_new": self.step_tf_new,
             "tf_call": self.step_tf_call,
             "coul": self.step_coul,
+            "preset": self.step_preset,
         }
         for i, st_ in enumerate(steps):
             self.touched = []
@@ -657,6 +684,11 @@ class _History:
             self.observe(f"after step {i} ({st_['op']})")
         self.touched = []
         self.observe("at the end of the history", final=True)
+
+
+# first build in this process of every (atnum, preset) with the default radial grid: it precedes every in-place edit
+# of anything derived from it, so it is the clean reference for all later builds
+_PRESET_ANCHOR = {}
 
 
 def body(case, ctx):
@@ -744,6 +776,7 @@ _S_TFCALL = st.fixed_dictionaries(
         "xs": _XS,
     }
 )
+_S_PRESET = st.fixed_dictionaries({"op": st.just("preset"), "z": st.sampled_from([1, 6, 8]), "preset": st.sampled_from(["coarse", "medium"])})
 _S_COUL = st.fixed_dictionaries({"op": st.just("coul"), "el": st.sampled_from(ELEMENTS), "npint": st.booleans()})
 
 
@@ -766,7 +799,7 @@ def _with_prefix(prefix, step, min_size, max_steps):
 
 
 def strat_angular(max_steps):
-    step = _weighted((_S_ANG, 3), (_S_EDIT, 4), (_S_ATOM, 2), (_S_SHELL, 2), (_S_ANGINT, 1), (_S_SPL, 1), (_S_MOL, 1))
+    step = _weighted((_S_ANG, 3), (_S_EDIT, 5), (_S_ATOM, 2), (_S_SHELL, 2), (_S_ANGINT, 1), (_S_SPL, 1), (_S_MOL, 1), (_S_PRESET, 2))
     prefix = st.one_of(st.tuples(_S_ANG), st.tuples(_S_ATOM), st.tuples(_S_ANG, _S_ATOM), st.tuples(_S_ATOM, _S_SHELL), st.tuples(_S_MOL))
     return _case(_with_prefix(prefix, step, 3, max_steps))
 
@@ -784,7 +817,7 @@ def strat_coulomb(max_steps):
 
 def strat_mixed(max_steps):
     tfnew = _weighted((_S_TFNEW_B, 5), (_S_TFNEW_H, 1))
-    step = _weighted((_S_ANG, 2), (_S_EDIT, 4), (_S_ATOM, 2), (_S_SHELL, 2), (_S_ANGINT, 1), (_S_SPL, 1), (_S_MOL, 1), (tfnew, 1), (_S_TFCALL, 4), (_S_COUL, 2))
+    step = _weighted((_S_ANG, 2), (_S_EDIT, 5), (_S_ATOM, 2), (_S_SHELL, 2), (_S_ANGINT, 1), (_S_SPL, 1), (_S_MOL, 1), (tfnew, 1), (_S_TFCALL, 4), (_S_COUL, 2), (_S_PRESET, 2))
     prefix = st.one_of(st.tuples(_S_ATOM, tfnew), st.tuples(_S_ANG, tfnew, _S_COUL), st.tuples(_S_ATOM, _S_SHELL, tfnew))
     return _case(_with_prefix(prefix, step, 3, max_steps))
 
